@@ -319,5 +319,50 @@ def rule_i4(repo):
     return res
 
 
+def rule_i5(repo):
+    """A memo table inside a recursive helper must be keyed by every parameter of the helper: the
+    result of rec(s, n) for a sub-term depends on the binder depth n as well as on the node."""
+    res = RuleResult('C03.I5', 'a memo table inside a recursive term traversal is keyed by every parameter of the recursion', floor=2)
+    for rel in (TERM, TYPE):
+        m = repo.module(rel)
+        for f in m.all_funcs:
+            if f.parent is None:
+                continue
+            # a nested recursive helper that reads / writes a dict of the enclosing function
+            outer = f.parent
+            caches = set()
+            for n in ast.walk(outer.node):
+                if isinstance(n, ast.Assign) and len(n.targets) == 1 and isinstance(n.targets[0], ast.Name) and \
+                        isinstance(n.value, (ast.Dict, ast.Call)) and (isinstance(n.value, ast.Dict) or call_name(n.value) == 'dict'):
+                    caches.add(n.targets[0].id)
+            recursive = any(isinstance(c, ast.Call) and is_name(c.func, f.name) for c in ast.walk(f.node))
+            if not caches or not recursive:
+                continue
+            params = f.params()
+            from ..flow import flow_of
+            flow = flow_of(f.node)
+            for cname in sorted(caches):
+                keys = []
+                for n in ast.walk(f.node):
+                    if isinstance(n, ast.Subscript) and is_name(n.value, cname):
+                        keys.append(n.slice)
+                    cp = compare_parts(n) if isinstance(n, ast.Compare) else None
+                    if cp and cp[0] in (ast.In, ast.NotIn) and is_name(cp[2], cname):
+                        keys.append(cp[1])
+                if not keys:
+                    continue
+                missing = set()
+                for k in keys:
+                    used = flow.names_closure(k)
+                    for p in params:
+                        if p not in used:
+                            missing.add(p)
+                res.add('%s :: %s :: memo(%s)' % (rel, f.qualname, cname), not missing,
+                        'keyed by all of %s' % params if not missing else
+                        'memo table `%s` of %s(%s) is keyed without %s: a node reached again with a different value of it gets the '
+                        'result computed for the first one' % (cname, f.name, ', '.join(params), sorted(missing)), f.loc)
+    return res
+
+
 def rules(repo):
-    return [rule_i1(repo), rule_i2(repo), rule_i3(repo), rule_i4(repo)]
+    return [rule_i1(repo), rule_i2(repo), rule_i3(repo), rule_i4(repo), rule_i5(repo)]
